@@ -51,8 +51,8 @@ add("C08", "exploration",
     "DESIGN.md section 6 C08")
 add("C09", "exploration",
     "exhaustive enumeration over families x orders x triplet orders x right-hand sides x guesses x tolerances x solvers, independent dense LU as reference",
-    "Six well-posed families (SPD and strictly diagonally dominant, symmetric and nonsymmetric, mixed-sign diagonals) of order 1..60 through seven construction paths (three triplet orders, insert by insert, double transpose, overwrite + scale, explicitly stored zeros) with right-hand sides A x*, 0 and 1e6 A x*, guesses 0 / exact / generic and three tolerances: each applicable solver must answer Ok within 6n+30 iterations and agree with an independent dense LU solution within 10 tol ||A^-1|| ||b||; exact guesses and zero/zero starts must be accepted with x finite. Plus every strictly dominant SPD 2x2/3x3 matrix over a 5-letter alphabet for all five solvers.",
-    "Trusted: independent dense LU and condition estimate. Known finding (listed by exact input in known_findings.txt, printed as KNOWN-FINDING): exact Lanczos breakdowns of BiCG/BiCGSTAB/QMR on some strictly dominant systems; the Lanczos-type solvers are therefore judged for convergence on the irreducible families only.",
+    "Six well-posed families (SPD and strictly diagonally dominant, symmetric and nonsymmetric, mixed-sign diagonals) of order 1..60 through seven construction paths (three triplet orders, insert by insert, double transpose, overwrite + scale, explicitly stored zeros) with right-hand sides A x*, 0, 1e6 A x*, 2^332 A x* and 2^-332 A x*, guesses 0 / exact / generic (at the problem's scale) and three tolerances: each applicable solver must answer Ok within 6n+30 iterations and agree with an independent dense LU solution within 10 tol ||A^-1|| ||b||; exact guesses and zero/zero starts must be accepted with x finite. Plus every strictly dominant SPD 2x2/3x3 matrix over a 5-letter alphabet for all five solvers.",
+    "Trusted: independent dense LU and condition estimate. Known finding (listed by exact input in known_findings.txt, printed as KNOWN-FINDING): exact Lanczos breakdowns of BiCG/BiCGSTAB/QMR on some strictly dominant systems; the Lanczos-type solvers are therefore judged for convergence on the irreducible families only. Second known finding (six listed inputs): right-hand sides beyond about 1e+-155 overflow / underflow r.r in CG, BiCG and BiCGSTAB.",
     "DESIGN.md section 6 C09")
 
 add("C10", "model_checking",
